@@ -174,6 +174,26 @@ func EqualGoFloat(a, b V) bool {
 	return Equal(a, b, Ordered)
 }
 
+// NormNaN returns a copy in which every NaN float is the one canonical NaN (NaN payloads are
+// not data in the IPLD data model; only "is NaN" is).
+func (v V) NormNaN() V {
+	c := v.Clone()
+	var rec func(x *V)
+	rec = func(x *V) {
+		if x.K == Float && math.IsNaN(x.F) {
+			x.F = math.NaN()
+		}
+		for i := range x.Items {
+			rec(&x.Items[i])
+		}
+		for i := range x.Ents {
+			rec(&x.Ents[i].V)
+		}
+	}
+	rec(&c)
+	return c
+}
+
 // Clone makes a deep copy.
 func (v V) Clone() V {
 	c := v
@@ -522,4 +542,185 @@ func (v *V) UnmarshalJSON(b []byte) error {
 		}
 	}
 	return nil
+}
+
+// Mutate returns a copy of v with one local change at the at-th value (pre-order), chosen
+// by how: scalar tweak, kind change, dropped / added entry, two entries swapped.
+// The result always differs from v under Ordered equality, unless ok is false.
+func Mutate(v V, at, how int) (out V, ok bool) {
+	c := v.Clone()
+	n := 0
+	var done bool
+	var rec func(x *V)
+	rec = func(x *V) {
+		if done {
+			return
+		}
+		if n == at {
+			done = true
+			ok = mutateHere(x, how)
+			return
+		}
+		n++
+		for i := range x.Items {
+			rec(&x.Items[i])
+		}
+		for i := range x.Ents {
+			rec(&x.Ents[i].V)
+		}
+	}
+	rec(&c)
+	return c, ok && !Equal(c, v, Ordered)
+}
+
+func mutateHere(x *V, how int) bool {
+	switch x.K {
+	case List:
+		switch how % 4 {
+		case 0:
+			if len(x.Items) > 0 {
+				x.Items = x.Items[:len(x.Items)-1]
+				return true
+			}
+		case 1:
+			if len(x.Items) >= 2 {
+				i := (how / 4) % (len(x.Items) - 1)
+				x.Items[i], x.Items[i+1] = x.Items[i+1], x.Items[i]
+				return true
+			}
+		case 2:
+			*x = V{K: Map, Ents: []Ent{}}
+			return true
+		}
+		x.Items = append(x.Items, MkInt(int64(how)))
+		return true
+	case Map:
+		switch how % 4 {
+		case 0:
+			if len(x.Ents) > 0 {
+				i := (how / 4) % len(x.Ents)
+				x.Ents = append(x.Ents[:i:i], x.Ents[i+1:]...)
+				return true
+			}
+		case 1:
+			if len(x.Ents) >= 2 {
+				i := (how / 4) % (len(x.Ents) - 1)
+				x.Ents[i], x.Ents[i+1] = x.Ents[i+1], x.Ents[i]
+				return true
+			}
+		case 2:
+			if len(x.Ents) > 0 {
+				// rename one key
+				i := (how / 4) % len(x.Ents)
+				nk := x.Ents[i].K + "'"
+				if _, dup := x.Get(nk); !dup {
+					x.Ents[i].K = nk
+					return true
+				}
+			}
+		}
+		nk := "added"
+		for {
+			if _, dup := x.Get(nk); !dup {
+				break
+			}
+			nk += "_"
+		}
+		x.Ents = append(x.Ents, Ent{nk, MkNull()})
+		return true
+	case Null:
+		*x = MkBool(false)
+	case Bool:
+		if how%2 == 0 {
+			x.B = !x.B
+		} else {
+			*x = MkInt(0)
+		}
+	case Int:
+		switch how % 3 {
+		case 0:
+			x.I = x.I ^ 1
+		case 1:
+			*x = MkFloat(float64(x.I))
+		default:
+			*x = MkString(strconv.FormatInt(x.I, 10))
+		}
+	case Uint:
+		x.U = x.U ^ 1
+		if x.U <= math.MaxInt64 {
+			*x = MkInt(int64(x.U))
+		}
+	case Float:
+		if how%2 == 0 {
+			x.F = math.Float64frombits(math.Float64bits(x.F) ^ 1)
+			if math.IsNaN(x.F) || math.IsInf(x.F, 0) {
+				x.F = 0.25
+			}
+		} else {
+			*x = MkInt(int64(how))
+		}
+	case String:
+		switch how % 3 {
+		case 0:
+			x.S += "x"
+		case 1:
+			*x = MkBytes([]byte(x.S))
+		default:
+			if len(x.S) > 0 {
+				x.S = x.S[:len(x.S)-1]
+			} else {
+				x.S = "\x00"
+			}
+		}
+	case Bytes:
+		if how%2 == 0 {
+			x.S += "\x00"
+		} else {
+			*x = MkString(x.S)
+		}
+	case Link:
+		alt := "\x01\x55\x12\x20" + strings.Repeat("\x00", 32)
+		if x.S == alt {
+			alt = "\x01\x55\x12\x20" + strings.Repeat("\x01", 32)
+		}
+		x.S = alt
+	default:
+		return false
+	}
+	return true
+}
+
+// Diff describes the first difference between a and b (Ordered), or "" when equal.
+func Diff(a, b V) string {
+	return diff(a, b, "")
+}
+
+func diff(a, b V, path string) string {
+	if Equal(a, b, Ordered) {
+		return ""
+	}
+	if a.K == b.K {
+		switch a.K {
+		case List:
+			if len(a.Items) == len(b.Items) {
+				for i := range a.Items {
+					if d := diff(a.Items[i], b.Items[i], path+"/"+strconv.Itoa(i)); d != "" {
+						return d
+					}
+				}
+			}
+		case Map:
+			if len(a.Ents) == len(b.Ents) {
+				for i := range a.Ents {
+					if a.Ents[i].K != b.Ents[i].K {
+						return fmt.Sprintf("at %q entry %d: key %q vs %q", path, i, Txt(a.Ents[i].K), Txt(b.Ents[i].K))
+					}
+					if d := diff(a.Ents[i].V, b.Ents[i].V, path+"/"+Txt(a.Ents[i].K)); d != "" {
+						return d
+					}
+				}
+			}
+		}
+	}
+	return fmt.Sprintf("at %q: %s vs %s", path, a.Short(160), b.Short(160))
 }
